@@ -70,7 +70,7 @@ PROPERTIES = {
         'not_decided': ['Store::vanish (calls find_events, outside the reach of this technique)'],
     },
     'C10': {
-        'units': ['store', 'storelemmas', 'index', 'keys'],
+        'units': ['store', 'storelemmas', 'index', 'keys', 'addr'],
         'sample_functions': ['Store::handle_deletion_event', 'Store::remove_replaceable', 'Store::remove_by_offset'],
         'not_decided': [],
     },
@@ -85,7 +85,7 @@ PROPERTIES = {
         'not_decided': ['"is returned by every filter shape": that is Store::find_events, which is outside the reach of this technique (DESIGN.md 5, C05)'],
     },
     'C11': {
-        'units': ['keys', 'index'],
+        'units': ['keys', 'index', 'store', 'storelemmas', 'addr'],
         'sample_functions': ['Lmdb::mark_naddr_deleted', 'Lmdb::when_is_naddr_deleted', 'Lmdb::key_naddr_index'],
         'not_decided': [],
     },
@@ -96,7 +96,7 @@ PROPERTIES = {
         'assumptions': ['Event accessors id/pubkey/kind/created_at/tags are used by contract (their bodies are under proof in unit `event`)'],
     },
     'C03': {
-        'units': ['utf8', 'escape', 'lex', 'hexread', 'tagsjson', 'event_parse', 'filter_parse'],
+        'units': ['utf8', 'escape', 'lex', 'hexread', 'tagsjson', 'event_parse', 'filter_parse', 'addr', 'hexwrite', 'hll_hex'],
         'sample_functions': ['next_code_point', 'json_unescape', 'read_u64', 'read_id'],
         'not_decided': [],
     },
